@@ -304,3 +304,53 @@ void harness_shutdown(void)
 	CHECK(verif_live_blocks == baseline, "C07.accounting_back_at_baseline_after_shutdown");
 	WITNESS_END();
 }
+
+/* ================================================================== a peer that is everything at once ends: P owns state "s" (B subscribed), holds a
+ * fetch-all of its own, is the caller of an in-flight set to O's state "t" and the owner of an in-flight set from A.
+ * Afterwards: B saw remove of "s" exactly once, A got exactly one shutdown error, nothing is written to P, O's table
+ * no longer holds P's request, O's element no longer reports to P's fetch, O and its element are untouched, and
+ * once everybody is gone everything is released. */
+static struct peer P, B2;
+void harness_peer_leaves_with_everything(void)
+{
+	__CPROVER_assume(element_hashtable_create() == 0);
+	long baseline = verif_live_blocks;
+	mkpeer(&O, true); mkpeer(&A, true); mkpeer(&P, true); mkpeer(&B2, true);
+	int v = (int)nd_range(0, 999), w = (int)nd_range(0, 999);
+	scn_build_begin();
+	cJSON *addt = mkreq("add", 1, path_params("t", 1));
+	cJSON *adds = mkreq("add", 2, path_params("s", 2));
+	cJSON *fb = mkreq("fetch", 3, fetch_params("fb"));
+	cJSON *fp = mkreq("fetch", 4, fetch_params("fp"));
+	cJSON *set_t = mkreq("set", 5, path_params("t", v));     /* P -> O */
+	cJSON *set_s = mkreq("set", 6, path_params("s", v));     /* A -> P */
+	scn_build_end();
+	__CPROVER_assume(dispatch(&O, addt) == 0 && dispatch(&P, adds) == 0 && dispatch(&B2, fb) == 0 && dispatch(&P, fp) == 0);
+	reset_log();
+	__CPROVER_assume(dispatch(&P, set_t) == 0 && dispatch(&A, set_s) == 0);
+	__CPROVER_assume(nlog == 2 && LOG[0].kind == K_ROUTED && LOG[0].to == &O && LOG[1].kind == K_ROUTED && LOG[1].to == &P && timers_alive() == 2);
+	char id_at_o[20]; cpystr(id_at_o, sizeof(id_at_o), LOG[0].id_str);
+	reset_log();
+	free_peer_resources(&P);                      /* the connection ends */
+	dead_peer = &P;
+	CHECK(count_events(&B2, 'r', "s") == 1 && count_events(&B2, 0, 0) == 1, "C05.subscribers_see_remove_of_the_owned_element_once");
+	CHECK(element_table_get("s") == 0, "C05.owned_elements_disappear");
+	{ struct sent *a = answer_to(&A, 6); CHECK(answers_to(&A, 6) == 1 && a && a->is_error && !a->has_result, "C05.request_routed_to_the_leaving_peer_answered_with_one_error"); }
+	CHECK(timers_alive() == 0, "C07.request_timers_of_both_directions_destroyed");
+	struct element *et = element_table_get("t");
+	CHECK(et && et->peer == &O && et->value && et->value->valueint == 1 && count_kind(&O, K_RESPONSE) == 0 && count_events(&O, 0, 0) == 0, "C05.other_peers_elements_unaffected");
+	/* O answers the request P had in flight: dropped, nothing is written anywhere */
+	reset_log();
+	int r = reply(&O, id_at_o, 0, w);
+	CHECK(r >= 0 && delivered() == 0, "C05.own_in_flight_requests_are_dropped");
+	/* O changes "t": B still hears it, P's fetch is gone */
+	reset_log();
+	scn_build_begin(); cJSON *chg = mkreq("change", 7, path_params("t", w)); scn_build_end();
+	__CPROVER_assume(dispatch(&O, chg) == 0);
+	CHECK(count_events(&B2, 'c', "t") == 1, "C05.other_peers_fetches_unaffected");
+	{ struct sent *e = last_of(&B2, K_EVENT); CHECK(e && e->value_int == w, "C01.event_carries_the_new_value"); }
+	dead_peer = 0;
+	free_peer_resources(&A); free_peer_resources(&B2); free_peer_resources(&O);
+	CHECK(verif_live_blocks == baseline && timers_alive() == 0, "C07.everything_released_once_all_peers_are_gone");
+	WITNESS_END();
+}
